@@ -48,8 +48,13 @@ namespace OpenMEEG {
 
     public:
 
-        CommandLine(const int argc,char* argv[],const std::string& usage=""): n(argc),args(argv) {
-            help = find_argument("-h")!=end() || find_argument("--help")!=end();
+        CommandLine(const int argc,char* argv[],const std::string& usage=""): n(argc),args(argv),used(argc,false) {
+            char** help1 = find_argument("-h");
+            char** help2 = find_argument("--help");
+            help = help1!=end() || help2!=end();
+            mark(args);
+            mark(help1);
+            mark(help2);
             if (help) {
                 std::cerr << red << std::filesystem::path(args[0]).filename() << normal;
                 if (usage!="")
@@ -63,6 +68,7 @@ namespace OpenMEEG {
         template <typename T>
         T option(const std::string& name,const T defaultvalue,const std::string usage) const {
             char** arg = find_argument(name);
+            mark(arg);
             const T result = (arg==end()) ?  defaultvalue : parse_value(arg+1,defaultvalue);
             if (help)
                 std::cerr << "    " << bold << std::left << std::setw(8) << name << normal
@@ -72,6 +78,7 @@ namespace OpenMEEG {
 
         bool option(const std::string& name,const bool defaultvalue,const std::string usage) const {
             char** arg = find_argument(name);
+            mark(arg);
             const bool result = (arg==end()) ?  defaultvalue : !defaultvalue;
             if (help)
                 std::cerr << "    " << bold << std::left << std::setw(8) << name << normal
@@ -96,6 +103,8 @@ namespace OpenMEEG {
                 std::cerr << ") and you gave only " << num_parms << " arguments." << std::endl;
                 exit(1);
             }
+            for (std::size_t i=0; i<=num_parms; ++i)
+                mark(arg+i);
             return arg;
         }
 
@@ -155,6 +164,16 @@ namespace OpenMEEG {
             return res;
         }
 
+        // First argument that is neither an option asked for so far nor the value or a parameter of such an option
+        // (nullptr if there is none). To be called once all the options have been read.
+
+        const char* unknown_argument() const {
+            for (unsigned i=1; i<n; ++i)
+                if (!used[i])
+                    return args[i];
+            return nullptr;
+        }
+
         void print() const {
             std::cout << std::endl << "| ------ " << args[0] << std::endl;
             for (unsigned i=1; i<n; ++i)
@@ -173,6 +192,11 @@ namespace OpenMEEG {
 
         char** end() const { return args+n; }
 
+        void mark(char** arg) const {
+            if (arg!=end())
+                used[arg-args] = true;
+        }
+
         char** find_argument(const std::string& name) const {
             for (auto arg = args; arg!=end(); ++arg)
                 if (name==*arg)
@@ -185,6 +209,7 @@ namespace OpenMEEG {
         std::string parse_value(char* arg[],const std::string& defaultvalue) const {
             if (arg==end() || (*arg)[0]=='-')
                 return defaultvalue;
+            mark(arg);
             std::istringstream iss(*arg);
             std::string value = defaultvalue;
             iss >> value;
@@ -195,6 +220,7 @@ namespace OpenMEEG {
         T parse_value(char* arg[],const T defaultvalue) const {
             if (arg==end())
                 return defaultvalue;
+            mark(arg);
             std::istringstream iss(*arg);
             T value = defaultvalue;
             iss >> value;
@@ -218,6 +244,8 @@ namespace OpenMEEG {
         unsigned n;
         char**   args;
         bool     help;
+
+        mutable std::vector<bool> used; // arguments recognised so far (see unknown_argument).
     };
 
     inline void print_version(const char* cmd) {
